@@ -1008,6 +1008,77 @@ theorem rn24_decision_exact (p θ : Rat)
   decision_exact_of_margin rn24 _ _ rn24_roundsWithin p θ
     (margin_of_relative_gap _ _ p θ (by positivity) (by norm_num) (by positivity) hg)
 
+/-! ### the distance weight as executed -/
+
+/-- **the computed weight lies in `[0, 1]`**: every operation of
+`0.5 * (np.tanh(a * (d - d_min)) + 1)` rounded by a monotone rounding that is exact on `0, 1, 2`,
+`tanh` any function with values in `[-1, 1]` — the hypothesis `damp ≤ 1` of the density theorems
+holds for the weight the code computes, not only for the exact formula -/
+theorem dampOfFl_mem_unit (fl th : Rat → Rat) (hmono : ∀ x y, x ≤ y → fl x ≤ fl y)
+    (h0 : fl 0 = 0) (h1 : fl 1 = 1) (h2 : fl 2 = 2) (hth : ∀ x, -1 ≤ th x ∧ th x ≤ 1)
+    (a dmin d : Rat) : 0 ≤ dampOfFl fl th a dmin d ∧ dampOfFl fl th a dmin d ≤ 1 := by
+  unfold dampOfFl
+  obtain ⟨t1, t2⟩ := hth (fl (a * fl (d - dmin)))
+  set t := th (fl (a * fl (d - dmin)))
+  have a1 : 0 ≤ fl (t + 1) := by have := hmono 0 (t + 1) (by linarith); rwa [h0] at this
+  have a2 : fl (t + 1) ≤ 2 := by have := hmono (t + 1) 2 (by linarith); rwa [h2] at this
+  constructor
+  · have := hmono 0 (1 / 2 * fl (t + 1)) (by linarith); rwa [h0] at this
+  · have := hmono (1 / 2 * fl (t + 1)) 1 (by linarith); rwa [h1] at this
+
+/-- with exact arithmetic the executed formula is the documented one -/
+theorem dampOfFl_id (th : Rat → Rat) (a dmin d : Rat) :
+    dampOfFl id th a dmin d = dampOf th a dmin d := rfl
+
+/-- **suppression of local links with the weight as computed only removes links, as executed** -/
+theorem x_nnz_non_local_le_documented (fl th : Rat → Rat) (hmono : ∀ x y, x ≤ y → fl x ≤ fl y)
+    (h0 : fl 0 = 0) (h1 : fl 1 = 1) (h2 : fl 2 = 2) (hth : ∀ x, -1 ≤ th x ∧ th x ≤ 1)
+    (S : XSim) (dist : Sim) (a dmin : Rat) (θ : Option Rat) (N : Nat)
+    (hrep : ∀ i j s, i < N → j < N → S i j = some s → fl s = s ∧ 0 ≤ s) :
+    nnz (thresholdAdjacencyX (weightedX fl true S (dampMatFl fl th a dmin dist)) θ N)
+      ≤ nnz (thresholdAdjacencyX (weightedX fl false S (dampMatFl fl th a dmin dist)) θ N) :=
+  x_nnz_non_local_le fl hmono S _ θ N hrep fun i j _ _ =>
+    (dampOfFl_mem_unit fl th hmono h0 h1 h2 hth a dmin (dist i j)).2
+
+/-! ### `link_density_function` (l.343–359) -/
+
+/-- **`link_density_function(n)[i]` is the fraction of all `N²` stored similarities below bin edge
+`i`** (`i < n`; edges ascending, all entries inside `[e₀, eₙ]` as `np.histogram` guarantees) -/
+theorem link_density_function_spec (S : Sim) (N : Nat) (edges : List Rat) (n i : Nat) (hi : i < n)
+    (hmono : ∀ a, a < n → edges.getD a 0 ≤ edges.getD (a + 1) 0)
+    (hin : ∀ x ∈ allEntries S N, edges.getD 0 0 ≤ x ∧ x ≤ edges.getD n 0) :
+    (linkDensityFunction S N edges n)[i]? = some
+      ((((allEntries S N).countP fun x => decide (x < edges.getD i 0) : Nat) : Rat)
+        / ((N * N : Nat) : Rat)) := by
+  unfold linkDensityFunction
+  simp only [List.getElem?_map, List.getElem?_range hi, Option.map_some]
+  rw [hist_prefix_sum _ _ _ _ hi hmono, hist_total _ _ _ (by omega) hmono hin, length_allEntries,
+    cnt_below _ _ _ fun x hx => (hin x hx).1]
+
+/-- despite its name the function bounds the link density from above: at threshold `e_i` the
+number of (ordered) linked pairs is at most the number of entries not below `e_i` -/
+theorem link_density_function_bounds_links (S : Sim) (N : Nat) (e : Rat) :
+    nnz (thresholdAdjacency S e N) + (allEntries S N).countP (fun x => decide (x < e)) ≤ N * N := by
+  rw [nnz_thresholdAdjacency, ← length_allEntries S N]
+  have h1 := offDiag_countP_le_all S N fun s => decide (e < s)
+  have h2 := countP_add_le_length (allEntries S N) (fun s => decide (e < s))
+    (fun x => decide (x < e)) (by
+      intro x _ ⟨a, b⟩
+      simp only [decide_eq_true_eq] at a b
+      exact absurd a (not_lt.2 (le_of_lt b)))
+  omega
+
+/-- the function starts at 0 and never decreases (exact arithmetic) -/
+theorem link_density_function_mono (xs : List Rat) (e e' : Rat) (h : e ≤ e') :
+    xs.countP (fun x => decide (x < e)) ≤ xs.countP (fun x => decide (x < e')) := by
+  apply List.countP_mono_left
+  intro x _ hx
+  simp only [decide_eq_true_eq] at hx ⊢
+  exact lt_of_lt_of_le hx h
+
+example : linkDensityFunction (fun i j => ((2 * i + j + 1 : Nat) : Rat) / 4) 2 [1/4, 1/2, 3/4, 1] 3
+    = [0, 1/4, 1/2] := by decide +kernel
+
 /-! ### consistency after every history, as executed -/
 
 def XNet.Consistent (fl : Rat → Rat) (s : XNet) : Prop :=
@@ -1208,6 +1279,17 @@ theorem script_hilbert_init (fr : Frame) (θ : Rat) (hθ : fr.initθ = some θ) 
       StructC09.init, StructC09.hilbertSetThreshold, StructC09.setThreshold,
       execList, execStmt, setNet, val, back, setThresholdOf, mask, Net.assignAdjacency, hθ, hd,
       hilbertState, hilbertAdjacency, phaseMask_idem]
+
+/-- `ClimateNetwork.link_density_function` as written (histogram of all stored similarities,
+normalisation, `out[i] = hist[:i].sum()`) = `linkDensityFunction` -/
+theorem script_linkDensityFunction (S : Sim) (N : Nat) (edges : List Rat) (n : Nat) :
+    ldfRun StructC09.linkDensityFunction S N edges n = some (linkDensityFunction S N edges n) := by
+  rfl
+
+/-- the accessors `threshold()`, `non_local()`, `similarity_measure()` are plain getters in the
+current source — the normalisation of the translator (inlining them) is justified -/
+theorem gen_getters : StructC09.getters = [("non_local", "_non_local"),
+    ("similarity_measure", "_similarity_measure"), ("threshold", "_threshold")] := by decide
 
 /-- of all classes of the climate package only `HilbertClimateNetwork` overrides a method of the
 threshold machinery (`set_threshold`); every other subclass — Tsonis, Spearman, MutualInfo,
